@@ -4,7 +4,7 @@
    of symbol x designates.  Proofs: IR/Symbols.v.  The end-to-end statement (positions after apply() = positions
    in the edited listing) is checked on the implementation by the listing oracle of harness/c02.py. *)
 From Coq Require Import ZArith List Bool Arith.
-From GR Require Import Base.Result Adt.RefCache Adt.RefCacheProofs IR.State IR.Modify IR.Edit IR.Symbols IR.SymbolsRemove IR.FindingsGen.
+From GR Require Import Base.Result Adt.RefCache Adt.RefCacheProofs IR.State IR.Modify IR.Edit IR.Symbols IR.SymbolsRemove IR.CfgClosedInsert IR.SymbolsInsert IR.FindingsGen.
 Import ListNotations.
 Open Scope Z_scope.
 
@@ -96,6 +96,18 @@ Proof.
   - apply Inv_init. cbn. repeat constructor; cbn; intuition discriminate.
   - repeat split; vm_compute; reflexivity.
 Qed.
+
+(* ===== the steps of insert() between insert_split and the clean-up (insert_body: C05_insert_is_its_steps) =====
+   move no label of the module -- whether it is held directly or through the reference cache -- and give the patch's labels exactly the
+   referents of the assembled patch (a block of the patch, start or end), which place_blocks puts at the insertion point plus the block's
+   offset inside the patch. *)
+Theorem C02_insert_body_labels :
+  forall s b first last lastk end_block added_ft bi offset repl code p pcfg pprox,
+    let s' := insert_body s b first last lastk end_block added_ft bi offset repl code p pcfg pprox in
+    (forall x, In x (map fst (stab (rcache s))) -> abs (rcache s') x = abs (rcache s) x) /\
+    (forall x v, ~ In x (map fst (stab (rcache s))) -> ~ In x (fsyms (refs (rcache s))) -> NoDup (map fst (p_syms p)) -> In (x, v) (p_syms p) ->
+       abs (rcache s') x = v).
+Proof. exact insert_body_referents. Qed.
 
 (* ===== the recorded findings, as facts about the faithful model (witnesses: IR/FindingsGen.v, the model input of the corpus cases) =====
    "A label keeps designating its place" is FALSE of whole rewrites on these inputs; both were replayed on the implementation. *)
